@@ -523,6 +523,35 @@ func observe(c gengo.Context, bh Behav, gen string, named *types.Named) {
 	}
 	sort.Strings(ips)
 	vals["imports"] = strings.Join(ips, ",")
+	// where the universe locates the type's position, what the context returns for the package's own path and for its
+	// module-local imports, and the source directory relative to the module root
+	if lp := c.LocateInPackage(obj.Pos()); lp != nil {
+		vals["located"] = lp.Pkg().Path()
+	} else {
+		vals["located"] = "none"
+	}
+	if own := c.Package(pkg.Pkg().Path()); own != nil {
+		vals["self"] = own.Pkg().Path()
+		if mod := own.Module(); mod != nil {
+			if rel, err := filepath.Rel(mod.Dir, own.SourceDir()); err == nil {
+				vals["srcdir"] = filepath.ToSlash(rel)
+			}
+		}
+	}
+	for _, ipd := range ips {
+		ip := strings.SplitN(ipd, ":", 2)[0]
+		if q := c.Package(ip); q != nil {
+			vals["ctx-import:"+ip] = fmt.Sprintf("%s (%d own types)", q.Pkg().Name(), func() int {
+				n := 0
+				for _, t := range q.Types() {
+					if !strings.HasPrefix(filepath.Base(q.Position(t.Pos()).Filename), "zz_generated.") {
+						n++
+					}
+				}
+				return n
+			}())
+		}
+	}
 	// the declaration the type's position resolves to (looked up across the package's files)
 	switch d := pkg.Decl(obj.Pos()).(type) {
 	case nil:
